@@ -7,6 +7,9 @@
 (*   AddConfigLoader(l...)  -> AddLoaders(l...)          (fix F5; the code *)
 (*                             at the pinned commit called SetLoaders)     *)
 (*   SetConfigLoader(l...)  -> SetLoaders(l...)          (replaces)        *)
+(* (the variadic forms take several loaders, of any kind, file loaders     *)
+(* included: an option with join = TRUE is a further loader of the call    *)
+(* the option before it started)                                           *)
 (* Initialize sorts the list by the ordering contract (Ordering.tla: file  *)
 (* loaders first, ties free, the others in list order) and merges the      *)
 (* loaders' documents left to right into the binder (deep merge: a later   *)
@@ -28,11 +31,12 @@ NO == Len(sc.opts)
 InitWith(s) == sc = s /\ k = 0 /\ loaders = <<>> /\ eff = [p \in Paths |-> None] /\ phase = "options"
 Init == \E s \in Scenarios : InitWith(s)
 
-\* one application option
+\* one application option (an "init" entry is handled by MidInit below)
 ApplyOpt ==
-  /\ phase = "options" /\ k < NO
-  /\ LET o == sc.opts[k + 1] IN
-     loaders' = CASE o.kind = "file" -> Append(loaders, k + 1)
+  /\ phase = "options" /\ k < NO /\ sc.opts[k + 1].kind # "init"
+  /\ LET o == sc.opts[k + 1] IN      \* (o.join: a further loader of the SAME variadic Set/AddConfigLoader call as the option before)
+     loaders' = CASE o.join -> Append(loaders, k + 1)
+                  [] o.kind = "file" -> Append(loaders, k + 1)
                   [] o.kind = "add"  -> IF FixF5 THEN Append(loaders, k + 1) ELSE <<k + 1>>
                   [] o.kind = "set"  -> <<k + 1>>
   /\ k' = k + 1 /\ UNCHANGED <<sc, eff, phase>>
@@ -46,28 +50,38 @@ Sequences == {p \in [1..Len(loaders) -> 1..Len(loaders)] : IsSortedPerm(p, Parts
 Merge(m, i) == [p \in Paths |-> IF p \in sc.opts[i].keys THEN sc.opts[i].val ELSE m[p]]
 RECURSIVE Fold(_, _, _)
 Fold(p, j, m) == IF j > Len(p) THEN m ELSE Fold(p, j + 1, Merge(m, loaders[p[j]]))
-\* Configure.Initialize: sort, then merge left to right
+\* Configure.Initialize: sort, then merge left to right ON TOP of what the binder already holds (viper MergeConfig);
+\* the sorted list is what the Configure keeps (c.loaders = SortOrderedComponents(c.loaders)).
 Initialize ==
   /\ phase = "options" /\ k = NO
-  /\ \E p \in Sequences : eff' = Fold(p, 1, [q \in Paths |-> None])
-  /\ phase' = "ready" /\ UNCHANGED <<sc, k, loaders>>
-Next == ApplyOpt \/ Initialize
+  /\ \E p \in Sequences : eff' = Fold(p, 1, eff) /\ loaders' = [j \in 1..Len(loaders) |-> loaders[p[j]]]
+  /\ phase' = "ready" /\ UNCHANGED <<sc, k>>
+\* An "init" entry in the option sequence: the Configure is initialised in the middle (a first application start on a
+\* shared Configure); later options keep acting on the same loader list and the next Initialize sorts and loads AGAIN.
+MidInit ==
+  /\ phase = "options" /\ k < NO /\ sc.opts[k + 1].kind = "init"
+  /\ \E p \in Sequences : eff' = Fold(p, 1, eff) /\ loaders' = [j \in 1..Len(loaders) |-> loaders[p[j]]]
+  /\ k' = k + 1 /\ UNCHANGED <<sc, phase>>
+Next == ApplyOpt \/ MidInit \/ Initialize
 Spec == Init /\ [][Next]_vars
 
 \* ================================================================ properties
 \* the sources an option sequence configures, defined on the options alone: "set" replaces, everything else adds
 RECURSIVE Sources(_, _)
 Sources(opts, n) == IF n = 0 THEN <<>>
-                    ELSE IF opts[n].kind = "set" THEN <<n>> ELSE Append(Sources(opts, n - 1), n)
-C15_AddKeeps == phase = "ready" => loaders = Sources(sc.opts, NO)
+                    ELSE IF opts[n].kind = "set" /\ ~opts[n].join THEN <<n>>
+                    ELSE IF opts[n].kind = "init" THEN Sources(opts, n - 1) ELSE Append(Sources(opts, n - 1), n)
+\* (an Initialize stores the list sorted, so the list is compared as a collection)
+C15_AddKeeps == phase = "ready" => (Len(loaders) = Len(Sources(sc.opts, NO)) /\ Range(loaders) = Range(Sources(sc.opts, NO)))
 \* a later add-option never shrinks the list
-C15_AddMonotone == [][(k' = k + 1 /\ sc.opts[k + 1].kind # "set") => (Len(loaders') = Len(loaders) + 1 /\ SubSeq(loaders', 1, Len(loaders)) = loaders)]_vars
+C15_AddMonotone == [][(k' = k + 1 /\ (sc.opts[k + 1].kind \notin {"set", "init"} \/ sc.opts[k + 1].join)) => (Len(loaders') = Len(loaders) + 1 /\ SubSeq(loaders', 1, Len(loaders)) = loaders)]_vars
 \* effective configuration = deep merge in the loader sequence: last supplier wins, single suppliers stay visible
 Suppliers(p) == {i \in Range(Sources(sc.opts, NO)) : p \in sc.opts[i].keys}
 IsFile(i) == sc.opts[i].lk = "file"
 Winner(p) ==   \* the values that may win: of the last non-file supplier if any, else of any file (ties among files are free)
   LET S == Suppliers(p)  nf == {i \in S : ~IsFile(i)} IN
-  IF S = {} THEN {None} ELSE IF nf # {} THEN {sc.opts[CHOOSE i \in nf : \A j \in nf : j <= i].val} ELSE {sc.opts[i].val : i \in S}
+  IF S = {} THEN {None} \cup {sc.opts[i].val : i \in {j \in 1..NO : sc.opts[j].kind # "init" /\ p \in sc.opts[j].keys}}   \* (left over from an earlier Initialize)
+  ELSE IF nf # {} THEN {sc.opts[CHOOSE i \in nf : \A j \in nf : j <= i].val} ELSE {sc.opts[i].val : i \in S}
 C15_Fold == phase = "ready" => \A p \in Paths : eff[p] \in Winner(p)
 C15_SingleSupplierVisible == phase = "ready" => \A p \in Paths : (\E i \in Suppliers(p) : Suppliers(p) = {i}) => eff[p] \in {sc.opts[i].val : i \in Suppliers(p)}
 =============================================================================
